@@ -138,8 +138,20 @@ func (e *Engine) RunCase(id int, c Case, cfg map[string]any, runs []simpool.Run)
 	return jr.Results, nil
 }
 
-// Run executes the batch and returns the process exit code.
+// Run executes the batch, writes the evidence file and returns the process exit code.
 func Run(spec Spec) int {
+	code, ev := RunCollect(spec)
+	if ev != nil {
+		if err := ev.Write(jbuild.VerifDir()); err != nil {
+			fmt.Fprintln(os.Stderr, err)
+			return 2
+		}
+	}
+	return code
+}
+
+// RunCollect executes the batch and returns the exit code and the evidence (nil on infrastructure trouble).
+func RunCollect(spec Spec) (int, *evidence.Evidence) {
 	start := time.Now()
 	if spec.SimCfg == nil {
 		spec.SimCfg = DefaultSimCfg
@@ -147,19 +159,19 @@ func Run(spec Spec) int {
 	e, err := Open(spec, spec.Workers)
 	if err != nil {
 		fmt.Fprintln(os.Stderr, err)
-		return 2
+		return 2, nil
 	}
 	defer e.Close()
 	kf, err := known.Load(e.Env.Verif)
 	if err != nil {
 		fmt.Fprintln(os.Stderr, err)
-		return 2
+		return 2, nil
 	}
 
 	// determinism self-test: the first cases are run twice (on whichever workers are free); tapes, histories
 	// and outputs must be byte-identical, otherwise nothing this run reports could be replayed.
 	if code := e.selfTest(12); code != 0 {
-		return code
+		return code, nil
 	}
 
 	counters := evidence.NewCounter()
@@ -277,7 +289,7 @@ func Run(spec Spec) int {
 	wg.Wait()
 	if infra != nil {
 		fmt.Fprintln(os.Stderr, "infrastructure failure:", infra)
-		return 2
+		return 2, nil
 	}
 
 	sort.Slice(failures, func(a, b int) bool { return failures[a].caseIdx < failures[b].caseIdx })
@@ -307,7 +319,7 @@ func Run(spec Spec) int {
 		path, err := evidence.WriteReplay(e.Env.Verif, rp)
 		if err != nil {
 			fmt.Fprintln(os.Stderr, err)
-			return 2
+			return 2, nil
 		}
 		fmt.Printf("VIOLATION property=%s replay=%s\n", spec.Property, path)
 		fmt.Printf("  class=%s %s\n", mv.Class, mv.Message)
@@ -343,16 +355,12 @@ func Run(spec Spec) int {
 		},
 		Assumptions: spec.Assumptions,
 	}
-	if err := ev.Write(e.Env.Verif); err != nil {
-		fmt.Fprintln(os.Stderr, err)
-		return 2
-	}
 	fmt.Printf("%s %s: %d cases, %d runs, %d distinct interleavings (%d non-trivial), %d violations, %d known findings hit, %.1fs\n",
 		spec.Property, spec.Tier, cases.Len(), runs, interleavings.Len(), nontrivial.Len(), violations, len(kids), wall)
 	if violations > 0 {
-		return 1
+		return 1, ev
 	}
-	return 0
+	return 0, ev
 }
 
 func (e *Engine) selfTest(n int) int {
